@@ -425,15 +425,15 @@ def small_box(b):
     return b.typ in (b"jumd", b"bfdb")
 
 
-def gen_positions(view, rng, quick, budget=560):
-    """[(position, bits)]"""
+def gen_positions(view, rng, quick, budget=560, light=False):
+    """[(position, bits)]; light: one bit per ordinary byte (second carrier of the same store in the thorough tier)"""
     n = len(view.buf)
     if not quick:
         small = set()
         for b in view.all_boxes():
             if small_box(b):
                 small.update(range(b.start, b.end))
-        return [(q, (0, 1, 2, 3, 4, 5, 6, 7) if q in small else (0, 3, 5, 7)) for q in range(n)]
+        return [(q, (0, 1, 2, 3, 4, 5, 6, 7) if q in small else ((0,) if light else (0, 5, 7))) for q in range(n)]
     must, bounds = {}, set()
     for b in view.all_boxes():
         for x in (b.start, b.start + 3, b.start + 4, b.start + 7, b.start + b.hdr, b.end - 1):
@@ -501,10 +501,10 @@ def _run(ctx, quick, budget, with_model):
         for name, s in stores.items():
             for car in ("jpeg", "c2pa"):
                 v = s[car]["view"]
-                for q, bits in gen_positions(v, ctx.rng, quick, budget):
+                for q, bits in gen_positions(v, ctx.rng, quick, budget, light=(car == "jpeg")):
                     for bit in bits:
                         cases.append({"op": "mut", "store": s["recipe"], "carrier": car, "m": {"k": "flip", "pos": q, "bit": bit}})
-                    if not quick and v.buf[q] != 0:
+                    if not quick and car == "c2pa" and v.buf[q] != 0 and q % 4 == 0:
                         cases.append({"op": "mut", "store": s["recipe"], "carrier": car, "m": {"k": "set", "pos": q, "val": 0}})
                 cases.append({"op": "mut", "store": s["recipe"], "carrier": car, "m": {"k": "none", "pos": 0}})
             for ename, nb in structure_edits(s["c2pa"]["view"]):
@@ -625,7 +625,7 @@ def _run(ctx, quick, budget, with_model):
         "evaluations": len(cases), "distinct_nontrivial": distinct,
         "rule": "per store shape (single manifest; parent + active manifest with parentOf ingredient; the same with claim thumbnail + component ingredient with thumbnail) and carrier (embedded JPEG APP11, sidecar .c2pa): "
                 "quick = all JUMBF field boundaries (box start, type, header end, end, description boxes) sampled to 260 + seeded positions up to 520, "
-                "plus every byte of embedded-file description boxes and a few positions inside every leaf box, x flip bit 0 / 7 (and the case bit 5 inside description boxes); structure edits incl. unsigned twins of every assertion box before/after the original; thorough = every byte x flip bit 0/3/5/7 (all 8 bits in description boxes) and set 0; non-trivial = changes a store byte; distinct by (store, carrier, mutation)",
+                "plus every byte of embedded-file description boxes and a few positions inside every leaf box, x flip bit 0 / 7 (and the case bit 5 inside description boxes); structure edits incl. unsigned twins of every assertion box before/after the original; thorough = every byte of the sidecar carrier x flip bit 0/5/7 (all 8 bits in description boxes; set 0 on every 4th byte) and every byte of the JPEG carrier x flip bit 0; non-trivial = changes a store byte; distinct by (store, carrier, mutation)",
         "distribution": stats, "model_evaluations": modelled,
         "stores": {k: {"jpeg_len": len(s["jpeg"]["buf"]), "c2pa_len": len(s["c2pa"]["buf"]), "manifests": len(s["jpeg"]["view"].manifests)} for k, s in stores.items()},
         "samples": [{"store": c["store"]["name"], "carrier": c["carrier"], "m": c["m"]} for c in cases[:2] + cases[len(cases) // 2: len(cases) // 2 + 2]],
